@@ -7,7 +7,7 @@ import traceback
 import faulthandler
 
 
-class CaseTimeout(Exception):
+class CaseTimeout(BaseException):
     pass
 
 
